@@ -56,6 +56,13 @@ pub fn run_once(prop: &str, tier: Tier, tape: Tape, trace: bool) -> RunOutput {
     crate::sim::reset_call_budget();
     let r = catch_unwind(AssertUnwindSafe(|| dispatch(&sim, prop, tier)));
     crate::alloc::set_domain(crate::alloc::SIM);
+    let (clock_reads, sleeps) = crate::simclock::take_counts();
+    if clock_reads > 0 {
+        sim.count_n("clock_reads_by_the_system_under_test", clock_reads);
+    }
+    if sleeps > 0 {
+        sim.count_n("sleeps_by_the_system_under_test", sleeps);
+    }
     let mut out = {
         let mut s = sim.0.borrow_mut();
         RunOutput {
